@@ -4,6 +4,7 @@ import os
 from collections import defaultdict
 
 from . import facts as factsmod
+from . import inline as inlinemod
 
 
 class AnchorMissing(Exception):
@@ -524,6 +525,8 @@ class Program:
         self.impls = []
         self.unsafe = []
         self.counts = defaultdict(int)
+        self.inlined = {}        # caller key -> [(helper key, line)]: new helpers expanded at their call sites
+        known = inlinemod.load_known()
         for t in factsmod.EXPECTED_TARGETS:
             path = os.path.join(facts_dir, t + ".json")
             if not os.path.isfile(path):
@@ -533,6 +536,9 @@ class Program:
             if d.get("schema") != factsmod.SCHEMA:
                 raise AnchorMissing("fact schema mismatch in %s" % t)
             self.targets[t] = d
+            rep = inlinemod.inline_all(d["fns"], known)
+            for k, v in rep.items():
+                self.inlined.setdefault(k, []).extend(v)
             for k, v in d["counts"].items():
                 self.counts[k] += v
             for k, rec in d["fns"].items():
